@@ -12,7 +12,7 @@ pub fn prop() -> Prop {
     Prop {
         id: "C08",
         level: "exploration",
-        rule: "(1) all token strings of length <= 3 over the full vocabulary (keywords, operators, delimiters, identifier spellings that embed/prefix/suffix keywords, numbers, strings) rendered with every per-gap separator choice from {nothing where maximal munch allows, space, newline, line comment}: the token stream must be the concatenation of the tokens of the pieces, every piece one token spanning exactly its text, keywords not identifiers, lexeme kept; (2) all strings of length <= 3 over {a, é, _, 1, 0, .} against a reference maximal-munch lexer; (3) all string contents of length <= 4 over 8 characters encoded with the documented escapes: the parsed String node must equal the content; all raw literal bodies of length <= 4 over {a, quote, backslash, n} followed by more input: the literal ends at the first unescaped quote and decodes as the reference decoder says; (3c) token-length ladder: one identifier / digit run / fraction / string literal / comment / white-space run of every length around each power of two up to 1025 (8193 thorough), with one escape or wide character at every position near a multiple of 8 and at both ends; (4) nothing is dropped: a text with an illegal character, an unterminated string or a lone & or | is rejected by parse, and between consecutive token spans only white space and comments occur. Non-trivial = more than one token or a literal with an escape; distinct = distinct texts",
+        rule: "(1) all token strings of length <= 3 over the full vocabulary (keywords, operators, delimiters, identifier spellings that embed/prefix/suffix keywords, numbers, strings) rendered with every per-gap separator choice from {nothing where maximal munch allows, space, newline, line comment}: the token stream must be the concatenation of the tokens of the pieces, every piece one token spanning exactly its text, keywords not identifiers, lexeme kept; (2) all strings of length <= 3 over {a, é, _, 1, 0, .} against a reference maximal-munch lexer; (3) all string contents of length <= 4 over 8 characters encoded with the documented escapes: the parsed String node must equal the content; all raw literal bodies of length <= 4 over {a, quote, backslash, n} followed by more input: the literal ends at the first unescaped quote and decodes as the reference decoder says; (3d) character sweep: every printable ASCII character, tab / newline / carriage return and 24 Unicode representatives (letters of several scripts and widths, digits, white space, combining mark, format characters, symbols), singly and in every ordered pair, inside / at the start / at the end of a word, raw and after a backslash in a string literal, inside / at the end of a comment, and between tokens (illegal characters must be refused); (3c) token-length ladder: one identifier / digit run / fraction / string literal / comment / white-space run of every length around each power of two up to 1025 (8193 thorough), with one escape or wide character at every position near a multiple of 8 and at both ends; (4) nothing is dropped: a text with an illegal character, an unterminated string or a lone & or | is rejected by parse, and between consecutive token spans only white space and comments occur. Non-trivial = more than one token or a literal with an escape; distinct = distinct texts",
         assumptions: &[
             "token kinds are compared through their Debug rendering, learnt from single-token inputs (no kind name is hard-coded); the documented token shapes are those of printer::may_touch and the reference lexer in this file",
         ],
@@ -326,9 +326,116 @@ fn length_ladder(sh: &mut Shard) {
     }
 }
 
+/// Every printable ASCII character, the three ASCII line / tab controls, and representatives of the Unicode
+/// classes the lexer distinguishes (letters of several scripts and byte widths, digits, white space, a
+/// combining mark, a format character, symbols).
+pub fn full_alphabet() -> Vec<char> {
+    let mut v: Vec<char> = (0x20u8..=0x7e).map(|b| b as char).collect();
+    v.extend(['\t', '\n', '\r']);
+    v.extend(['é', 'ß', 'Ω', 'ж', '中', 'ﬁ', '😀', '€', '٣', '²', '\u{00a0}', '\u{2028}', '\u{3000}', '\u{feff}', '\u{0301}', '\u{200b}', '×', '¬']);
+    // the rest of the documented white space (Pattern_White_Space)
+    v.extend(['\u{000b}', '\u{000c}', '\u{0085}', '\u{200e}', '\u{200f}', '\u{2029}']);
+    v
+}
+
+/// Character sweep: EVERY character of the full alphabet (and every ordered pair of them) in each lexical
+/// context: inside / at the start / at the end of a word, raw and after a backslash inside a string literal,
+/// inside and at the end of a comment, and between two tokens. Expectations come from the character's
+/// class (word character, white space, string delimiter / escape, known operator, anything else = illegal).
+fn char_sweep(sh: &mut Shard) {
+    let alpha = full_alphabet();
+    let ident = |s: String| vec![Stmt::Expr(Expr::Identifier(s))];
+    let mut one = |sh: &mut Shard, text: String, want: Result<Vec<Stmt>, ()>, what: &str| {
+        if !sh.mine() {
+            return;
+        }
+        let t = text.clone();
+        sh.begin(&|| t.clone());
+        sh.count("family:char-sweep");
+        sh.nontrivial(&text);
+        match (parse_guarded(&text), &want) {
+            (Parsed::Ok(ast), Ok(w)) if &ast == w => {}
+            (Parsed::Ok(ast), Ok(_)) => fail(sh, "char-sweep", &text, format!("{what}: the parser returned {ast:?}")),
+            (Parsed::Ok(ast), Err(())) => fail(sh, "char-sweep", &text, format!("{what}: must be refused, was accepted as {ast:?}")),
+            (Parsed::Err(_), Err(())) => {}
+            (Parsed::Err(e), Ok(_)) => fail(sh, "char-sweep", &text, format!("{what}: rejected: {e}")),
+            (Parsed::Panic(p), _) => fail(sh, "char-sweep", &text, format!("{what}: panic: {p}")),
+        }
+    };
+    let word = |c: char| c.is_alphanumeric() || c == '_';
+    let operator_char = |c: char| "+-*/%=!<>&|()[]{},;.\"".contains(c);
+    for &c in &alpha {
+        // words
+        if word(c) {
+            one(sh, format!("x{c}y"), Ok(ident(format!("x{c}y"))), "word character inside an identifier");
+            one(sh, format!("x{c}"), Ok(ident(format!("x{c}"))), "word character at the end of an identifier");
+            one(sh, format!("stel{c}"), Ok(ident(format!("stel{c}"))), "word character after a keyword spelling");
+            if c.is_alphabetic() || c == '_' {
+                one(sh, format!("{c}x"), Ok(ident(format!("{c}x"))), "letter at the start of an identifier");
+                one(sh, format!("{c}"), Ok(ident(format!("{c}"))), "one-letter identifier");
+            }
+        } else if "\t\n\u{b}\u{c}\r \u{85}\u{200e}\u{200f}\u{2028}\u{2029}".contains(c) {
+            // the documented white space is Pattern_White_Space: these 11 code points and no others
+            one(sh, format!("x{c}y"), Ok(vec![Stmt::Expr(Expr::Identifier("x".into())), Stmt::Expr(Expr::Identifier("y".into()))]), "white space between two identifiers");
+            one(sh, format!("{c}x{c}"), Ok(ident("x".into())), "white space around an identifier");
+        } else if !operator_char(c) {
+            one(sh, format!("x{c}y"), Err(()), "illegal character between two identifiers");
+            one(sh, format!("x {c}"), Err(()), "illegal character at the end");
+            one(sh, format!("{c} x"), Err(()), "illegal character at the start");
+            one(sh, format!("1{c}2"), Err(()), "illegal character between two numbers");
+        }
+        // string literals: raw, and after a backslash
+        if c != '"' && c != '\\' {
+            one(sh, format!("\"a{c}b\""), Ok(vec![Stmt::Expr(Expr::String { value: format!("a{c}b") })]), "character inside a string literal");
+            one(sh, format!("\"{c}\""), Ok(vec![Stmt::Expr(Expr::String { value: format!("{c}") })]), "one-character string literal");
+        }
+        for tail in ["", "b", "\\\\", "é"] {
+            let raw = format!("a\\{c}{tail}\"");
+            if let Some((decoded, used)) = reference_string(&raw) {
+                if used == raw.len() {
+                    one(sh, format!("\"{raw}"), Ok(vec![Stmt::Expr(Expr::String { value: decoded })]), "backslash + character inside a string literal");
+                }
+            }
+        }
+        // comments
+        if c != '\n' {
+            let seven = vec![Stmt::Expr(Expr::Int { value: 7 })];
+            one(sh, format!("// a{c}b\n7"), Ok(seven.clone()), "character inside a comment");
+            one(sh, format!("// a{c}\n7"), Ok(seven.clone()), "character at the end of a comment");
+            one(sh, format!("//{c}\n7"), Ok(seven.clone()), "character directly after the comment marker");
+            one(sh, format!("7 // a{c}"), Ok(seven.clone()), "character at the end of a comment at the end of the input");
+            one(sh, format!("7 //{c}\n// b{c}\n"), Ok(seven.clone()), "two comments");
+        }
+    }
+    // ordered pairs: in a string literal (raw and after a backslash) and in a comment
+    for &c1 in &alpha {
+        for &c2 in &alpha {
+            let raw = format!("{c1}{c2}\"");
+            if let Some((decoded, used)) = reference_string(&raw) {
+                if used == raw.len() {
+                    one(sh, format!("\"{raw}"), Ok(vec![Stmt::Expr(Expr::String { value: decoded })]), "pair of characters in a string literal");
+                }
+            }
+            let raw = format!("\\{c1}{c2}\"");
+            if let Some((decoded, used)) = reference_string(&raw) {
+                if used == raw.len() {
+                    one(sh, format!("\"{raw}"), Ok(vec![Stmt::Expr(Expr::String { value: decoded })]), "backslash + pair of characters in a string literal");
+                }
+            }
+            if c1 != '\n' && c2 != '\n' {
+                one(sh, format!("//{c1}{c2}\n7"), Ok(vec![Stmt::Expr(Expr::Int { value: 7 })]), "pair of characters in a comment");
+            }
+            if word(c1) && word(c2) {
+                one(sh, format!("x{c1}{c2}"), Ok(ident(format!("x{c1}{c2}"))), "pair of word characters in an identifier");
+            }
+        }
+    }
+}
+
 fn run(sh: &mut Shard) {
     let tier = sh.cfg.tier;
     length_ladder(sh);
+    char_sweep(sh);
     let vocab = vocabulary();
     // anchors
     let mut singles: std::collections::HashMap<&str, String> = std::collections::HashMap::new();
@@ -625,7 +732,7 @@ fn replay(sh: &mut Shard, case: &Value) {
 }
 
 fn vacuity(m: &Merged) -> Option<String> {
-    for fam in ["sequences", "words", "length-ladder", "string-contents", "raw-bodies", "illegal", "spans"] {
+    for fam in ["sequences", "words", "length-ladder", "char-sweep", "string-contents", "raw-bodies", "illegal", "spans"] {
         if m.counters.get(&format!("family:{fam}")).copied().unwrap_or(0) == 0 {
             return Some(format!("family {fam} produced no case"));
         }
